@@ -184,6 +184,11 @@ def value_attr(I, v, name):
     if isinstance(v, ExcVal):
         if name == "args":
             return SList(list(v.args), "tuple")
+    if isinstance(v, Opaque) and name in getattr(v, "opaque_methods", {}):
+        m_ = v.opaque_methods[name]
+        f_ = lambda I2, a, kw: m_(I2, v, a, kw)
+        f_._pyvc_native = True
+        return f_
     if isinstance(v, Opaque):
         h = getattr(v, "attrs", None)
         if h and name in h:
@@ -211,7 +216,7 @@ def ext_class_member(I, cls, name):
         if p in ("builtins.object",) or p.startswith("sklearn.") or p.startswith("builtins."):
             return LibMethod(None, "object.__init__")
     if p.startswith("sklearn.base.") or p == "sklearn.base.BaseEstimator":
-        if name in ("get_params", "set_params", "_get_param_names", "__repr__", "_get_tags", "_more_tags"):
+        if name in ("get_params", "set_params", "_get_param_names"):
             return LibMethod(None, "BaseEstimator." + name)
     return None
 
@@ -1066,6 +1071,9 @@ def binop(I, op, a, b):
     if isinstance(a, (str, SStr)) and isinstance(b, (str, SStr)) and op == "Add":
         return SStr([("cat", a, b)])
     if isinstance(a, str) and op == "Mod":
+        items = b.items if isinstance(b, SList) and b.kind == "tuple" else [b]
+        if all(isinstance(x, (str, int)) and not isinstance(x, bool) for x in items):
+            return a % (tuple(items) if isinstance(b, SList) else items[0])
         return SStr([("fmt%", a, b)])
     if isinstance(a, SObj) or isinstance(b, SObj):
         dunder = {"Add": "add", "Sub": "sub", "Mult": "mul", "Div": "truediv", "Mod": "mod", "Pow": "pow",
@@ -1122,6 +1130,12 @@ def compare(I, op, a, b):
             r = False
         else:
             r = And(*[I.as_bool(I.compare("Eq", x, y)) for x, y in zip(a.items, b.items)])
+        return r if op == "Eq" else Not(r)
+    if isinstance(a, SDict) and isinstance(b, SDict) and op in ("Eq", "NotEq"):
+        if set(a.items) != set(b.items):
+            r = False
+        else:
+            r = And(*[I.as_bool(I.compare("Eq", a.items[k], b.items[k])) for k in a.items])
         return r if op == "Eq" else Not(r)
     if op in ("Eq", "NotEq"):
         same = _eq_misc(I, a, b)
@@ -1314,3 +1328,117 @@ def _time(I, args, kwargs):
 from . import libnp  # noqa: E402,F401  (registers numpy / pandas models)
 from .libnp import getitem, setitem  # noqa: E402,F401
 from .libpd import series_binop  # noqa: E402,F401
+
+
+# =========================================================================== sklearn BaseEstimator / joblib (assumed external contracts)
+
+def _init_param_names(I, cls):
+    c, m = I.class_lookup(cls, "__init__")
+    if c is None or not isinstance(m, FuncVal):
+        return []
+    a = m.node.args
+    return [p.arg for p in (a.posonlyargs + a.args)[1:]] + [p.arg for p in a.kwonlyargs]
+
+
+def _is_estimator(v):
+    return isinstance(v, (SObj, AbstractObj))
+
+
+@method("SObj", "BaseEstimator.get_params")
+def be_get_params(I, recv, args, kwargs):
+    """sklearn.base.BaseEstimator.get_params: {p: getattr(self, p)} for every constructor parameter p,
+    plus p__k for the parameters k of estimator-valued p when deep"""
+    USED.add("sklearn BaseEstimator.get_params / set_params / clone (documented contract, from the constructor signature)")
+    deep = arg(args, kwargs, 0, "deep", True)
+    out = SDict()
+    for p in _init_param_names(I, recv.cls):
+        v = I.getattr(recv, p)
+        out.items[p] = v
+        if deep and _is_estimator(v) and I.hasattr(v, "get_params"):
+            sub = I.call(I.getattr(v, "get_params"), [], {})
+            if isinstance(sub, SDict):
+                for k2, v2 in sub.items.items():
+                    out.items[f"{p}__{k2}"] = v2
+    return out
+
+
+@method("SObj", "BaseEstimator.set_params")
+def be_set_params(I, recv, args, kwargs):
+    valid = _init_param_names(I, recv.cls)
+    nested = {}
+    for key, value in kwargs.items():
+        k0, _, rest = key.partition("__")
+        if k0 not in valid:
+            raise SymRaise(ExcVal(ExtClass("builtins.ValueError"), (f"Invalid parameter {k0}",)), where="set_params")
+        if rest:
+            nested.setdefault(k0, {})[rest] = value
+        else:
+            I.setattr(recv, key, value)
+    for k0, sub in nested.items():
+        tgt = I.getattr(recv, k0)
+        I.call(I.getattr(tgt, "set_params"), [], sub)
+    return recv
+
+
+@method("SObj", "BaseEstimator._get_param_names")
+def be_param_names(I, recv, args, kwargs):
+    return SList(sorted(_init_param_names(I, recv.cls if isinstance(recv, SObj) else recv)), "list")
+
+
+class _Parallel:
+    pass
+
+
+@lib("joblib.Parallel")
+def jl_parallel(I, args, kwargs):
+    USED.add("joblib.Parallel(...)(delayed(f)(x) for x in xs) == [f(x) for x in xs]  (results in submission order)")
+    o = Opaque("joblib.Parallel")
+    o.is_parallel = True
+    return o
+
+
+@lib("joblib.delayed")
+def jl_delayed(I, args, kwargs):
+    return args[0]          # evaluated eagerly, in order
+
+
+@method("opaque", "__call__")
+def opaque_call(I, recv, args, kwargs):
+    raise Undecided("call of opaque value")
+
+
+@method("list", "intersection")
+def _s_intersection(I, recv, args, kwargs):
+    other = I.iter_concrete(args[0])
+    return SList([x for x in recv.items if any(isinstance(x, str) and isinstance(y, str) and x == y for y in other)], "set")
+
+
+@lib("builtins.next")
+def _next(I, args, kwargs):
+    g = args[0]
+    if isinstance(g, GenVal):
+        if g.items is not None:
+            if not g.items:
+                raise exc("StopIteration")
+            return g.items[0]
+        n = g.count
+        if is_sym(n):
+            if I.ctx.branch(to_z3(n) < 1, "next-empty"):
+                raise exc("StopIteration")
+        elif n < 1:
+            raise exc("StopIteration")
+        return g.item(0)
+    raise Undecided("next() of non-generator")
+
+
+@lib("sklearn.base.is_regressor")
+def sk_is_regressor(I, args, kwargs):
+    o = args[0]
+    if isinstance(o, AbstractObj):
+        return "RegressorMixin" in o.isa
+    if isinstance(o, SObj):
+        try:
+            return I.getattr(o, "_estimator_type") == "regressor"
+        except SymRaise:
+            return False
+    return False
